@@ -192,8 +192,8 @@ def check_property(pid, tier, seed, shared=None):
     # A failed *proof hint* (an assertion inside an inserted proof block) is not a contract clause: Verus assumes it afterwards, so what was
     # proved after it rests on an unproved step.  Alone it makes the property undecided, never violated; next to failed clauses it is
     # recorded in their replay files only.
-    hint_only = [v for v in violations if G.obligations[v[0]]['kind'] == 'proof-block']
-    violations = [v for v in violations if G.obligations[v[0]]['kind'] != 'proof-block']
+    hint_only = [v for v in violations if G.obligations[v[0]]['kind'] == 'proof-hint']
+    violations = [v for v in violations if G.obligations[v[0]]['kind'] != 'proof-hint']
 
     # obligations listed as open known findings are reported separately, not counted as proved or as owed
     known_oids = {oid for oid, _ in known_hit}
@@ -216,7 +216,7 @@ def check_property(pid, tier, seed, shared=None):
     # one substantial clause per function, the longest first, so that a reader sees what obligations look like
     for oid in sorted(mine, key=lambda x: -len(mine[x]['text'])):
         o = mine[oid]
-        if o['fid'] in seen_fn or o['kind'] in ('safety', 'proof-block'):
+        if o['fid'] in seen_fn or o['kind'] in ('safety', 'proof-block', 'proof-hint'):
             continue
         seen_fn.add(o['fid'])
         samples.append({'obligation': oid, 'kind': o['kind'], 'clause': o['text'][:400], 'contract': o['origin'],
